@@ -118,7 +118,7 @@ def witness_search(prop, f, timeout=120):
 
 # properties whose observation is an executing engine: the replay binary produces statements + catalogue / result queries, python's
 # sqlite3 (a real SQLite engine) executes them (vlib/engine.py)
-ENGINE_PROPS = ("C13", "C07")
+ENGINE_PROPS = ("C13", "C07", "C09")
 ENGINE_STATS = {}
 
 
